@@ -501,7 +501,11 @@ def roundtrip_job(job):
         c = factory(name)(**kw)
         inp = {'family': 'roundtrip', 'prim': name, 'kw': srepr(kw), 'solvers_seed': [name, seed, n]}
         res.case('%s|%s' % (key, srepr(kw)), True, sample=inp)
-        st = mt.state(c)
+        try:
+            st = mt.state(c)
+        except Exception as e:       # the library, asked for the reported state of one of its own conditions, raised
+            res.violation(key + '/state', 'state(condition) raised %r for kwds %r' % (e, kw), inp)
+            continue
         if list(st) != [c.__doc__] or set(st[c.__doc__]) != set(kw) or \
                 any(not (st[c.__doc__][k] == v or (v is None and st[c.__doc__][k] is None)) for k, v in kw.items()):
             res.violation(key + '/state', 'state %r for kwds %r' % (st, kw), inp)
@@ -541,7 +545,10 @@ def compound_state_job(job):
         if isinstance(t, int):
             continue
         want = {leaves[i].__doc__: defs[i][1] for i in used(t)}
-        got = mt.state(obj(t))
+        try:
+            got = mt.state(obj(t))
+        except Exception as e:
+            got = 'raised %r' % (e,)
         res.case('C10/bounded/roundtrip/compound|%r' % (t,), True)
         if got != want:
             res.violation('C10/bounded/roundtrip/compound-state', 'state(%r) = %r, expected %r' % (t, got, want),
